@@ -97,6 +97,9 @@ Proof.
   - intros e en tr v en' tr' H. discriminate.
   - intros lvs ss bc _ en tr v en' tr' _. rewrite exec_SWhile. destruct (loop _ _ _ _ _); discriminate.
   - intros; discriminate.
+  - intros; discriminate.
+  - intros; discriminate.
+  - intros; discriminate.
   - intros s r Hs Hr en tr v en' tr' H. cbn in H. apply andb_prop in H. destruct H as [A B].
     rewrite exec_block_cons. specialize (Hs en tr). destruct (exec m w fuel s en tr) eqn:E; try discriminate.
     + now apply Hr.
@@ -269,6 +272,11 @@ Section Agree.
       + destruct HL as [e1' [-> Ha1]]. eexists. split; [reflexivity|].
         assert (Ha2 : agree w T e1 e1') by (eapply agree_sub; eauto; intros x Hx; apply in_or_app; auto).
         destruct bc as [b|]; cbn; [now apply agree_cons | assumption].
+    - intros x tn es T e e' tr Hs Ha. cbn in Hs. cbn. rewrite forallb_forall in Hs.
+      rewrite (map_ext_in (eval w e) (eval w e')) by (intros a Ha'; apply (agree_eval w T e e' a Ha (Hs a Ha'))).
+      eexists. split; [reflexivity|]. now apply agree_cons.
+    - intros x T e e' tr Hs. discriminate Hs.
+    - intros x a T e e' tr Hs. discriminate Hs.
     - intros T e e' tr _ Ha. cbn. eauto.
     - intros s r Hs Hr T e e' tr Hsc Ha. cbn in Hsc. apply andb_prop in Hsc. destruct Hsc as [H1 H2].
       rewrite !exec_block_cons. specialize (Hs T e e' tr H1 Ha).
